@@ -572,6 +572,7 @@ func (w *vWorld) Snapshot() map[string]interface{} {
 	states := map[string]interface{}{}
 	nlive := 0
 	tw, ew := 0, 0
+	pooledDirty, pooledValue := 0, ""
 	for _, db := range w.slock.dbs {
 		if db == nil {
 			continue
@@ -600,6 +601,18 @@ func (w *vWorld) Snapshot() map[string]interface{} {
 		t1, e1 := vWheelCensus(db)
 		tw += t1
 		ew += e1
+		// key records that are NOT live (free ring of recycled managers): they must carry nothing of the key they served
+		for _, m := range db.freeLockManagers {
+			if m == nil || seen[m] {
+				continue
+			}
+			if m.currentData != nil || m.currentLock != nil || m.locked != 0 {
+				pooledDirty++
+				if pooledValue == "" && m.currentData != nil {
+					pooledValue = hex.EncodeToString(m.currentData.GetData())
+				}
+			}
+		}
 	}
 	sort.Slice(keys, func(i, j int) bool {
 		if keys[i].Db != keys[j].Db {
@@ -607,7 +620,7 @@ func (w *vWorld) Snapshot() map[string]interface{} {
 		}
 		return keys[i].Key < keys[j].Key
 	})
-	return map[string]interface{}{"e": "snap", "t": w.sec(), "keys": keys, "st": states, "nkeys": nlive, "tw": tw, "ew": ew}
+	return map[string]interface{}{"e": "snap", "t": w.sec(), "keys": keys, "st": states, "nkeys": nlive, "tw": tw, "ew": ew, "pooled_dirty": pooledDirty, "pooled_value": pooledValue}
 }
 
 // vWheelCensus counts live (not tombstoned) entries on the timeout and expiry structures.
